@@ -127,6 +127,8 @@ def _nonlin_solver(fcn, x0, params,
             if i < 10 or i % 10 == 0 or to_stop:
                 print("%6d: |dx|=%.3e, |f|=%.3e" % (i, dx_norm, y_norm))
         if to_stop:
+            # return the iterate that satisfies the stopping criteria
+            x = xnew
             converge = True
             break
 
